@@ -191,93 +191,4 @@ Proof.
   - intros k _. reflexivity.
 Qed.
 
-(* ---------------------------------------------------------------------------------------------- *)
-(* read_python (write_python d) = d                                                               *)
-(* ---------------------------------------------------------------------------------------------- *)
-Definition py_rhs (v : pyval) : pexpr :=
-  match v with
-  | PNone => EOther PNone
-  | PBool b => EOther (PBool b)
-  | PInt z => EOther (PInt z)
-  | PFloat f => EOther (PFloat f)
-  | PStr s => ELit (repr_str (s2l s))
-  | PList l => EOther (PList l)
-  | PDict l => EOther (PDict l)
-  | PNp dt x => EOther (PNp dt x)
-  | PArr dt shape lay elems => EOther (PArr dt shape lay elems)
-  end.
-
-Lemma eval_py_rhs (v : pyval) : plain v = true -> eval_expr (py_rhs v) = Some v.
-Proof.
-  intros H. destruct v; unfold py_rhs; cbn [eval_expr].
-  - reflexivity.
-  - reflexivity.
-  - reflexivity.
-  - rewrite H. reflexivity.
-  - rewrite eval_repr_str. cbn [option_map]. rewrite py_l2s_s2l. reflexivity.
-  - rewrite H. reflexivity.
-  - rewrite H. reflexivity.
-  - discriminate H.
-  - discriminate H.
-Qed.
-
-Definition py_item_ok (kv : string * pyval) : bool :=
-  py_key_ok (fst kv) && plain (snd kv) && wfb (snd kv).
-
-Definition py_exec_line (ke : string * pexpr) : option (string * pyval) :=
-  if is_ident (fst ke) && negb (smem (fst ke) keywords)
-  then option_map (pair (fst ke)) (eval_expr (snd ke))
-  else None.
-
-Lemma mapM_write_python (d : list (string * pyval)) :
-  forallb py_item_ok d = true -> mapM py_exec_line (write_python d) = Some d.
-Proof.
-  induction d as [|[k v] d IH]; intros H.
-  - reflexivity.
-  - cbn [forallb] in H. apply andb_true_iff in H. destruct H as [Hkv Hd].
-    unfold py_item_ok in Hkv. cbn [fst snd] in Hkv.
-    apply andb_true_iff in Hkv. destruct Hkv as [Hkv Hwf].
-    apply andb_true_iff in Hkv. destruct Hkv as [Hk Hpl].
-    unfold py_key_ok in Hk.
-    apply andb_true_iff in Hk. destruct Hk as [Hk Hlow].
-    unfold write_python in *. cbn [map mapM fst snd].
-    rewrite (IH Hd).
-    unfold py_exec_line at 1. cbn [fst snd]. rewrite Hk.
-    change (eval_expr _) with (eval_expr (py_rhs v)).
-    rewrite (eval_py_rhs v Hpl). reflexivity.
-Qed.
-
-Lemma map_lower_keys (d : list (string * pyval)) :
-  forallb py_item_ok d = true -> map (fun kv => (lower_str (fst kv), snd kv)) d = d.
-Proof.
-  induction d as [|[k v] d IH]; intros H.
-  - reflexivity.
-  - cbn [forallb] in H. apply andb_true_iff in H. destruct H as [Hkv Hd].
-    unfold py_item_ok in Hkv. cbn [fst snd] in Hkv.
-    apply andb_true_iff in Hkv. destruct Hkv as [Hkv _].
-    apply andb_true_iff in Hkv. destruct Hkv as [Hk _].
-    unfold py_key_ok in Hk.
-    apply andb_true_iff in Hk. destruct Hk as [_ Hlow].
-    apply String.eqb_eq in Hlow.
-    cbn [map fst snd]. rewrite Hlow. rewrite (IH Hd). reflexivity.
-Qed.
-
-(* read_python (write_python d) = d *)
-Lemma read_write_python (d : list (string * pyval)) : py_ok d = true -> read_python (write_python d) = Some d.
-Proof.
-  intros H. unfold py_ok in H. apply andb_true_iff in H. destruct H as [Hnd Hall].
-  change (forallb py_item_ok d = true) in Hall.
-  unfold read_python.
-  change (fun ke : string * pexpr =>
-            if is_ident (fst ke) && negb (smem (fst ke) keywords)
-            then option_map (pair (fst ke)) (eval_expr (snd ke))
-            else None) with py_exec_line.
-  rewrite (mapM_write_python d Hall).
-  rewrite (dict_of_list_nodup_str d Hnd).
-  rewrite (map_lower_keys d Hall).
-  rewrite (dict_of_list_nodup_str d Hnd).
-  reflexivity.
-Qed.
-
 Print Assumptions eval_repr_str.
-Print Assumptions read_write_python.
